@@ -1,7 +1,7 @@
 (* C16/Props.v -- the property theorems, and nothing else.  Each is closed by [exact] of a lemma of
    Proofs.v and followed by Print Assumptions. *)
 From Coq Require Import ZArith List Lia Bool.
-From PV Require Import Base.PySlice Base.NpSearch C16.Model C16.Spec C16.Proofs.
+From PV Require Import Base.PySlice Base.NpSearch C16.Model C16.Spec C16.Proofs C16.Proofs2.
 Import ListNotations.
 Open Scope Z_scope.
 
@@ -65,11 +65,124 @@ Theorem C16_excerpts : forall n k size : Z, 2 <= k -> 0 <= size ->
 Proof. exact excerpts_spec. Qed.
 Print Assumptions C16_excerpts.
 
-(* get_excerpts: the whole data when shorter than requested, else a concatenation of such excerpts *)
+(* get_excerpts: the whole data when shorter than requested, else a concatenation of such excerpts.
+   (Stage 3: the model now goes through data_chunk for every excerpt and through the final
+   `assert len(out) <= n_excerpts * excerpt_size`; [Some out] says that no exit is taken.) *)
 Theorem C16_get_excerpts : forall (A : Type) (data : list A) (k size : Z), 0 <= k -> 1 <= size ->
   exists out, get_excerpts data k size = Some out /\ GetExc_Spec data k size out.
 Proof. exact (@get_excerpts_spec). Qed.
 Print Assumptions C16_get_excerpts.
+
+(* ================= Stage 3 ================= *)
+
+(* data_chunk on the tuples yielded by chunk_bounds -- the statement on the data a consumer receives:
+   every call succeeds; with_overlap=True gives the chunk's rows, with_overlap=False the kept rows;
+   the kept blocks concatenate to exactly the data; each kept block is a contiguous sub-block of its
+   chunk's rows; no chunk has more than chunk_size rows *)
+Theorem C16_data_chunk : forall (A : Type) (data : list A) (cs ov : Z), 0 <= ov < cs ->
+  exists chunks ps, chunk_bounds (zlen data) cs ov = Some chunks /\
+    chunked_data data cs ov = Some ps /\
+    ps = map (fun c => mkpart (whole data c) (keep data c)) chunks /\
+    DC_Spec data cs ps.
+Proof. exact (@chunked_data_spec). Qed.
+Print Assumptions C16_data_chunk.
+
+(* data_chunk on any 4-tuple / 2-tuple of non-negative bounds: Python's slice is the clipped slice
+   in which CB_Spec, Tiles and Exc_Spec are stated *)
+Theorem C16_data_chunk_tuple : forall (A : Type) (data : list A) (c : chunk),
+  0 <= c_ss c -> 0 <= c_se c -> 0 <= c_ks c -> 0 <= c_ke c ->
+  data_chunk data true (tup c) true = DcOk (whole data c) /\
+  data_chunk data true (tup c) false = DcOk (keep data c).
+Proof. exact (@data_chunk_tup). Qed.
+Print Assumptions C16_data_chunk_tuple.
+
+Theorem C16_data_chunk_pair : forall (A : Type) (data : list A) (i : iv) (wo : bool),
+  0 <= lo i -> 0 <= hi i -> data_chunk data true [lo i; hi i] wo = DcOk (iv_slice data i).
+Proof. exact (@data_chunk_iv). Qed.
+Print Assumptions C16_data_chunk_pair.
+
+(* the exits of data_chunk: AssertionError iff not a tuple; ValueError iff a tuple of length other
+   than 2 or 4; otherwise rows are returned *)
+Theorem C16_data_chunk_exits : forall (A : Type) (data : list A) (is_tuple : bool) (t : list Z) (wo : bool),
+  (is_tuple = false -> data_chunk data is_tuple t wo = DcAssertError) /\
+  (is_tuple = true -> zlen t <> 2 -> zlen t <> 4 -> data_chunk data is_tuple t wo = DcValueError) /\
+  (is_tuple = true -> zlen t = 2 \/ zlen t = 4 -> exists rows, data_chunk data is_tuple t wo = DcOk rows).
+Proof. exact (@data_chunk_errors). Qed.
+Print Assumptions C16_data_chunk_exits.
+
+(* what [inside] (the clause "each kept part lies inside its chunk's data" of CB_Spec, stated on the
+   four numbers) means on the data: the kept rows can be cut out of the chunk's rows alone, at
+   offset keep_start - s_start *)
+Theorem C16_kept_inside_chunk_data : forall (A : Type) (data : list A) (c : chunk),
+  inside (zlen data) c ->
+  keep data c = slice (whole data c) (c_ks c - c_ss c) (c_ke c - c_ss c) /\
+  Infix (keep data c) (whole data c).
+Proof. intros A data c H. split; [now apply inside_keep_of_whole|now apply inside_infix]. Qed.
+Print Assumptions C16_kept_inside_chunk_data.
+
+(* the data-level checker used on the observed blocks is exactly DC_Spec on the row numbers *)
+Theorem C16_dc_checker : forall (n cs : Z) (ps : list (part Z)),
+  dc_spec_b n cs ps = true <-> DC_Spec (zrange 0 (Z.to_nat n)) cs ps.
+Proof. exact dc_spec_b_spec. Qed.
+Print Assumptions C16_dc_checker.
+
+(* completeness of the tiling checker: it accepts exactly the chunk lists that satisfy the statement
+   for every data array of that length (soundness alone is C16_checker_sound) *)
+Theorem C16_checker_complete : forall (n cs : Z) (chunks : list chunk), 0 <= n ->
+  (cb_spec_b n cs chunks = true <->
+   forall (A : Type) (data : list A), zlen data = n -> CB_Spec data cs chunks).
+Proof. exact cb_spec_b_iff. Qed.
+Print Assumptions C16_checker_complete.
+
+(* the other boolean checkers of the comparator decide their specifications *)
+Theorem C16_tiles_checker : forall (n : Z) (l : list iv), tiles_b n l = true <-> Tiles n l.
+Proof. exact tiles_b_spec. Qed.
+Print Assumptions C16_tiles_checker.
+
+Theorem C16_bounds_checker : forall (sizes : list Z) (cs : Z) (b : list Z),
+  bounds_spec_b sizes cs b = true <-> Bounds_Spec sizes cs b.
+Proof. exact bounds_spec_b_spec. Qed.
+Print Assumptions C16_bounds_checker.
+
+Theorem C16_excerpts_checker : forall (n k size : Z) (l : list iv),
+  exc_spec_b n k size l = true <-> Exc_Spec n k size l.
+Proof. exact exc_spec_b_spec. Qed.
+Print Assumptions C16_excerpts_checker.
+
+(* the greedy checker run on get_excerpts' observed row numbers implies the statement (soundness;
+   completeness = minimality of the greedy run decomposition is not proved) *)
+Theorem C16_getexc_checker_sound : forall (n size : Z), 0 <= n -> 1 <= size ->
+  forall (k : Z) (out : list Z), 0 <= k ->
+  getexc_b n k size out = true -> GetExc_Spec (zrange 0 (Z.to_nat n)) k size out.
+Proof. exact getexc_b_sound. Qed.
+Print Assumptions C16_getexc_checker_sound.
+
+(* chunk_bounds in closed form, the docstring's picture [ ceil(ov/2) | cs - ov | floor(ov/2) ]:
+   1 + max(0, (n - cs - 1) div (cs - ov)) full chunks at stride cs - ov, each keeping up to
+   s_end - ov div 2, and one last shorter chunk up to n when samples remain.  This fixes the keep
+   points and the number of chunks, which the property statement (CB_Spec) deliberately does not. *)
+Theorem C16_chunk_bounds_regular : forall n cs ov : Z, 0 <= ov < cs ->
+  chunk_bounds n cs ov = Some (cb_regular n cs ov).
+Proof. exact chunk_bounds_regular. Qed.
+Print Assumptions C16_chunk_bounds_regular.
+
+(* excerpts in closed form: exactly min(k, ceil(n / step)) excerpts (k if step = 0 < n), the i-th one
+   (i * step, min(i * step + size, n)) with step = max((n - size) div (k - 1), size) *)
+Theorem C16_excerpts_regular : forall n k size : Z, 2 <= k -> 0 <= size ->
+  excerpts n k size = Some (exc_regular n k size).
+Proof. exact excerpts_regular. Qed.
+Print Assumptions C16_excerpts_regular.
+
+(* when the data is at least as long as requested, get_excerpts returns exactly k * size samples:
+   all k excerpts are produced and each is full (so the final assert is tight and never fires) *)
+Theorem C16_get_excerpts_exact : forall (A : Type) (data : list A) (k size : Z),
+  2 <= k -> 1 <= size -> k * size <= zlen data ->
+  exists out, get_excerpts data k size = Some out /\ zlen out = k * size /\
+    out = concat (map (iv_slice data) (exc_regular (zlen data) k size)) /\
+    zlen (exc_regular (zlen data) k size) = k /\
+    Forall (fun i => hi i - lo i = size) (exc_regular (zlen data) k size).
+Proof. exact (@get_excerpts_exact). Qed.
+Print Assumptions C16_get_excerpts_exact.
 
 (* ---- non-vacuity: concrete, non-trivial instances ---- *)
 Example C16_ex_chunks :
@@ -82,4 +195,32 @@ Example C16_ex_mtscomp : iter_mtscomp [0; 3; 6; 9; 10] 3 =
   Some [mkiv 0 6; mkiv 6 9; mkiv 9 10].
 Proof. vm_compute. reflexivity. Qed.
 Example C16_ex_excerpts : excerpts 20 3 4 = Some [mkiv 0 4; mkiv 8 12; mkiv 16 20].
+Proof. vm_compute. reflexivity. Qed.
+Example C16_ex_data_chunk :
+  chunked_data [10; 11; 12; 13; 14; 15; 16] 4 1 =
+  Some [mkpart [10; 11; 12; 13] [10; 11; 12; 13]; mkpart [13; 14; 15; 16] [14; 15; 16]].
+Proof. vm_compute. reflexivity. Qed.
+Example C16_ex_data_chunk_neg : data_chunk [10; 11; 12; 13; 14] true [-3; -1] false = DcOk [12; 13].
+Proof. vm_compute. reflexivity. Qed.
+Example C16_ex_data_chunk_exits :
+  data_chunk [10; 11] true [0; 1; 2] false = DcValueError /\ data_chunk [10; 11] false [0; 1] false = DcAssertError.
+Proof. vm_compute. split; reflexivity. Qed.
+Example C16_ex_inside : inside 7 (mk 3 7 4 7) /\ keep [10; 11; 12; 13; 14; 15; 16] (mk 3 7 4 7) = [14; 15; 16].
+Proof. vm_compute. repeat split; try discriminate; right; split; discriminate. Qed.
+Example C16_ex_dc_checker : dc_spec_b 7 4 [mkpart [0; 1; 2; 3] [0; 1; 2; 3]; mkpart [3; 4; 5; 6] [4; 5; 6]] = true
+  /\ dc_spec_b 7 4 [mkpart [0; 1; 2; 3] [0; 1; 2; 3]; mkpart [3; 4; 5; 6] [3; 4; 5; 6]] = false.
+Proof. vm_compute. split; reflexivity. Qed.
+Example C16_ex_checker_complete : cb_spec_b 11 4 [mk 0 4 0 3; mk 1 5 3 4; mk 2 11 4 11] = false
+  /\ cb_spec_b 7 4 [mk 0 4 0 4; mk 3 7 4 7] = true.
+Proof. vm_compute. split; reflexivity. Qed.
+Example C16_ex_getexc_checker : getexc_b 20 3 4 [0; 1; 2; 3; 8; 9; 10; 11; 16; 17; 18; 19] = true
+  /\ getexc_b 20 2 4 [0; 1; 2; 3; 8; 9; 10; 11; 16; 17; 18; 19] = false.
+Proof. vm_compute. split; reflexivity. Qed.
+Example C16_ex_regular : cb_regular 11 4 3 = [mk 0 4 0 3; mk 1 5 3 4; mk 2 6 4 5; mk 3 7 5 6; mk 4 8 6 7;
+                              mk 5 9 7 8; mk 6 10 8 9; mk 7 11 9 11].
+Proof. vm_compute. reflexivity. Qed.
+Example C16_ex_exc_regular : exc_regular 20 3 4 = [mkiv 0 4; mkiv 8 12; mkiv 16 20]
+  /\ exc_regular 9 5 4 = [mkiv 0 4; mkiv 4 8; mkiv 8 9].
+Proof. vm_compute. split; reflexivity. Qed.
+Example C16_ex_get_excerpts_exact : get_excerpts [0; 1; 2; 3; 4; 5; 6; 7; 8; 9] 3 2 = Some [0; 1; 4; 5; 8; 9].
 Proof. vm_compute. reflexivity. Qed.
